@@ -54,6 +54,7 @@ Definition sp_shape (m : spm) : nat * nat := (rep_rows (mrep m), rep_cols (mrep 
 Definition shape_eqb (a b : nat * nat) : bool := Nat.eqb (fst a) (fst b) && Nat.eqb (snd a) (snd b).
 Definition sp_dtype (m : spm) : Z := mdt m.                                              (* .dtype *)
 Definition dtype_eqb : Z -> Z -> bool := Z.eqb.
+Definition sp_nnz (m : spm) : nat := r_nnz (mrep m).                                   (* .nnz: the stored-entry count *)
 (* .count_nonzero(): sum_duplicates() IN PLACE (sort_indices), then the count of non-zero stored
    values; returns the count and the object afterwards *)
 Definition sp_count_nonzero (m : spm) : nat * spm :=
